@@ -1,7 +1,7 @@
 (* Clu.v — clusters.py (_Clusters).  k-means is an oracle: [labels] are kmeans.labels_ after
    kmeans.fit(stored contexts), [assign] are kmeans.predict(query rows). *)
 From Coq Require Import ZArith List Bool.
-From MW Require Import Num Assoc Rng CF Matrix Lin Nbr.
+From MW Require Import Num Assoc Rng Par CF Matrix Lin Nbr.
 Import ListNotations.
 
 Section Clu.
